@@ -25,6 +25,17 @@
            _ = &mut sig    => conn.graceful_shutdown() } }          ConnSeesChange c
        drop(watcher);                                               DropReceiver c
 
+   The signal itself is the environment's: SignalFires makes the (user supplied) signal future
+   ready; SignalObserved is the later moment at which select! - which tonic uses WITHOUT
+   `biased;`, so the branch order is random - polls it and takes the branch.  In between, Accept
+   stays possible.
+
+   hyper's side of graceful_shutdown is explicit as well, because it is visible on the wire:
+   Goaway c (the GOAWAY announcement with last-stream-id 2^31-1, written once graceful_shutdown
+   was called on an established connection) and GoawayFinal c (the second GOAWAY carrying the real
+   last stream id, written after the peer acknowledged the shutdown ping; from then on hyper
+   admits no stream).
+
    [MakeSvc::poll_ready] is always Ready(Ok) and [MakeSvc::call] is [future::ready(Ok(..))], so the
    two [?] between "connection accepted" and [serve_connection] cannot return early; Accept is one
    step.  Every clone of [signal_rx] carries the version the original was created with (nobody
@@ -33,8 +44,8 @@
 
    What hyper does with a connection is not tonic's code: it enters through two functions, which
    are variables of the section in Proofs/Shutdown.v with hyper's contract as hypotheses:
-     admits gs infl   - may hyper hand a new stream to the service (gs = graceful_shutdown called)
-     resolves gs infl - may the connection future resolve on its own (peer closed cleanly / drained)
+     admits hp infl   - may hyper hand a new stream to the service (hp = GOAWAY phase)
+     resolves hp infl - may the connection future resolve on its own (peer closed cleanly / drained)
    The handshake state is explicit because hyper's graceful_shutdown only notes [close_pending]
    while the HTTP/2 preface has not arrived (observed with the real crate: such a connection is
    not closed by the shutdown until its peer speaks or goes away). *)
@@ -49,33 +60,38 @@ Inductive drain_pc := AtSend | AtDrop | AtWait.
 Inductive acceptor := Selecting | Draining (p : drain_pc) | Done.
 
 Inductive hstate := HS (* waiting for the client preface *) | Open.
+(* hyper/h2's shutdown phase of one connection: nothing written, announcement written, final
+   GOAWAY written *)
+Inductive gphase := GRun | GAnn | GFin.
 
-(* the task of one connection.  Live h gs fused infl: the hyper connection future is pending;
+(* the task of one connection.  Live h gs fused hp infl: the hyper connection future is pending;
    gs = graceful_shutdown has been called on it; fused = its Fuse'd changed() has fired;
-   infl = streams handed to the service and not finished.  Closed has_rx: the connection future
+   hp = what hyper has written about it; infl = streams handed to the service and not finished.  Closed has_rx: the connection future
    has resolved and the transport is dropped; has_rx = [drop(watcher)] has not run yet. *)
 Inductive cstate :=
-| Live (h : hstate) (gs fused : bool) (infl : list kid)
+| Live (h : hstate) (gs fused : bool) (hp : gphase) (infl : list kid)
 | Closed (has_rx : bool).
 
 (* the vocabulary of DESIGN.md *)
-Definition Serving (infl : list kid) := Live Open false false infl.
-Definition Notified (infl : list kid) := Live Open true true infl.
+Definition Serving (infl : list kid) := Live Open false false GRun infl.
+Definition Notified (hp : gphase) (infl : list kid) := Live Open true true hp infl.
 
 Record st := mkSt {
   acc : acceptor;
+  sig_ready : bool;               (* the signal future is ready (the user's signal has fired) *)
   sig_fused : bool;               (* the acceptor's Fuse has yielded *)
   version : nat;                  (* watch channel: number of successful sends *)
   rx_count : nat;                 (* watch channel: live receivers *)
   conns : list (cid * cstate)
 }.
 
-Definition init_st : st := mkSt Selecting false 0 1 [].
+Definition init_st : st := mkSt Selecting false false 0 1 [].
 
 Inductive label :=
 | Accept (c : cid)
 | IncomingErr
 | IncomingEnd
+| SignalFires                     (* environment: the signal future becomes ready *)
 | SignalObserved
 | Send
 | DropAcceptorRx
@@ -83,6 +99,8 @@ Inductive label :=
 | HandshakeDone (c : cid)         (* peer: the HTTP/2 preface arrived *)
 | ConnSeesChange (c : cid)
 | AgeExpires (c : cid)
+| Goaway (c : cid)                (* hyper writes the GOAWAY announcement *)
+| GoawayFinal (c : cid)           (* hyper writes the final GOAWAY (peer acknowledged the ping) *)
 | NewCall (c : cid) (k : kid)     (* peer + hyper: a stream is handed to the service *)
 | CallCompletes (c : cid) (k : kid)
 | ConnCloses (c : cid)            (* the connection future resolves with nothing in flight *)
@@ -103,13 +121,13 @@ Definition mem (k : kid) (l : list kid) : bool := existsb (N.eqb k) l.
 Definition del (k : kid) (l : list kid) : list kid := filter (fun x => negb (N.eqb k x)) l.
 
 Definition set_acc (s : st) (a : acceptor) : st :=
-  mkSt a (sig_fused s) (version s) (rx_count s) (conns s).
+  mkSt a (sig_ready s) (sig_fused s) (version s) (rx_count s) (conns s).
 Definition set_conn (s : st) (c : cid) (v : cstate) : st :=
-  mkSt (acc s) (sig_fused s) (version s) (rx_count s) (upd c v (conns s)).
+  mkSt (acc s) (sig_ready s) (sig_fused s) (version s) (rx_count s) (upd c v (conns s)).
 
 Section Step.
-  Variable admits : bool -> list kid -> bool.
-  Variable resolves : bool -> list kid -> bool.
+  Variable admits : gphase -> list kid -> bool.
+  Variable resolves : gphase -> list kid -> bool.
 
   (* one transition; None = the label is not enabled in s *)
   Definition step_fn (s : st) (l : label) : option st :=
@@ -117,22 +135,26 @@ Section Step.
     | Accept c =>
         match acc s, lookup c (conns s) with
         | Selecting, None =>
-            Some (mkSt Selecting (sig_fused s) (version s) (S (rx_count s))
-                       ((c, Live HS false false []) :: conns s))
+            Some (mkSt Selecting (sig_ready s) (sig_fused s) (version s) (S (rx_count s))
+                       ((c, Live HS false false GRun []) :: conns s))
         | _, _ => None
         end
     | IncomingErr => match acc s with Selecting => Some s | _ => None end
     | IncomingEnd => match acc s with Selecting => Some (set_acc s (Draining AtSend)) | _ => None end
+    | SignalFires =>
+        if sig_ready s then None
+        else Some (mkSt (acc s) true (sig_fused s) (version s) (rx_count s) (conns s))
     | SignalObserved =>
-        match acc s, sig_fused s with
-        | Selecting, false => Some (mkSt (Draining AtSend) true (version s) (rx_count s) (conns s))
-        | _, _ => None
+        match acc s, sig_fused s, sig_ready s with
+        | Selecting, false, true =>
+            Some (mkSt (Draining AtSend) true true (version s) (rx_count s) (conns s))
+        | _, _, _ => None
         end
     | Send =>
         match acc s with
         | Draining AtSend =>
             (* watch::Sender::send fails, changing nothing, when there is no receiver *)
-            Some (mkSt (Draining AtDrop) (sig_fused s)
+            Some (mkSt (Draining AtDrop) (sig_ready s) (sig_fused s)
                        (if Nat.eqb (rx_count s) 0 then version s else S (version s))
                        (rx_count s) (conns s))
         | _ => None
@@ -140,7 +162,8 @@ Section Step.
     | DropAcceptorRx =>
         match acc s with
         | Draining AtDrop =>
-            Some (mkSt (Draining AtWait) (sig_fused s) (version s) (pred (rx_count s)) (conns s))
+            Some (mkSt (Draining AtWait) (sig_ready s) (sig_fused s) (version s)
+                       (pred (rx_count s)) (conns s))
         | _ => None
         end
     | ServeReturns =>
@@ -150,48 +173,58 @@ Section Step.
         end
     | HandshakeDone c =>
         match lookup c (conns s) with
-        | Some (Live HS gs f infl) => Some (set_conn s c (Live Open gs f infl))
+        | Some (Live HS gs f hp infl) => Some (set_conn s c (Live Open gs f hp infl))
         | _ => None
         end
     | ConnSeesChange c =>
         match lookup c (conns s) with
-        | Some (Live h gs false infl) =>
-            if Nat.eqb (version s) 0 then None else Some (set_conn s c (Live h true true infl))
+        | Some (Live h gs false hp infl) =>
+            if Nat.eqb (version s) 0 then None else Some (set_conn s c (Live h true true hp infl))
         | _ => None
         end
     | AgeExpires c =>
         match lookup c (conns s) with
-        | Some (Live h false f infl) => Some (set_conn s c (Live h true f infl))
+        | Some (Live h false f hp infl) => Some (set_conn s c (Live h true f hp infl))
+        | _ => None
+        end
+    | Goaway c =>
+        match lookup c (conns s) with
+        | Some (Live Open true f GRun infl) => Some (set_conn s c (Live Open true f GAnn infl))
+        | _ => None
+        end
+    | GoawayFinal c =>
+        match lookup c (conns s) with
+        | Some (Live Open gs f GAnn infl) => Some (set_conn s c (Live Open gs f GFin infl))
         | _ => None
         end
     | NewCall c k =>
         match lookup c (conns s) with
-        | Some (Live Open gs f infl) =>
-            if admits gs infl && negb (mem k infl)
-            then Some (set_conn s c (Live Open gs f (k :: infl))) else None
+        | Some (Live Open gs f hp infl) =>
+            if admits hp infl && negb (mem k infl)
+            then Some (set_conn s c (Live Open gs f hp (k :: infl))) else None
         | _ => None
         end
     | CallCompletes c k =>
         match lookup c (conns s) with
-        | Some (Live Open gs f infl) =>
-            if mem k infl then Some (set_conn s c (Live Open gs f (del k infl))) else None
+        | Some (Live Open gs f hp infl) =>
+            if mem k infl then Some (set_conn s c (Live Open gs f hp (del k infl))) else None
         | _ => None
         end
     | ConnCloses c =>
         match lookup c (conns s) with
-        | Some (Live Open gs f infl) =>
-            if resolves gs infl then Some (set_conn s c (Closed true)) else None
+        | Some (Live Open gs f hp infl) =>
+            if resolves hp infl then Some (set_conn s c (Closed true)) else None
         | _ => None
         end
     | PeerAbort c =>
         match lookup c (conns s) with
-        | Some (Live _ _ _ _) => Some (set_conn s c (Closed true))
+        | Some (Live _ _ _ _ _) => Some (set_conn s c (Closed true))
         | _ => None
         end
     | DropReceiver c =>
         match lookup c (conns s) with
         | Some (Closed true) =>
-            Some (mkSt (acc s) (sig_fused s) (version s) (pred (rx_count s))
+            Some (mkSt (acc s) (sig_ready s) (sig_fused s) (version s) (pred (rx_count s))
                        (upd c (Closed false) (conns s)))
         | _ => None
         end
@@ -204,15 +237,18 @@ Section Step.
     end.
 End Step.
 
-(* hyper as observed: no new stream once graceful_shutdown has been called; the connection
-   future resolves on its own exactly when nothing is in flight *)
-Definition admits_std (gs : bool) (infl : list kid) : bool := negb gs.
-Definition resolves_std (gs : bool) (infl : list kid) : bool :=
-  match infl with [] => true | _ => false end.
+(* hyper as observed: streams are admitted until the final GOAWAY; the connection future of a
+   connection whose client is still there resolves only after the server has announced the
+   shutdown and with nothing in flight (a client that hangs up on its own is PeerAbort) *)
+Definition admits_std (hp : gphase) (infl : list kid) : bool :=
+  match hp with GFin => false | _ => true end.
+Definition resolves_std (hp : gphase) (infl : list kid) : bool :=
+  match hp, infl with GRun, _ => false | _, [] => true | _, _ => false end.
 
 (* ---- observed events and the trace checker ------------------------------------------------ *)
 Inductive ev :=
 | EAccept (c : cid)            (* the listener handed connection c to the accept loop *)
+| ESignalFired                 (* the harness fired the signal *)
 | ESignal                      (* the signal future returned Ready to the accept loop *)
 | EIncomingEnd                 (* the listener returned None *)
 | EIncomingErr                 (* the listener returned an error *)
@@ -222,6 +258,10 @@ Inductive ev :=
 | EConnClosed (c : cid)        (* server transport dropped *)
 | EPeerAbort (c : cid)         (* server transport dropped after its client had gone away *)
 | EServeReturned
+| EGoaway (c : cid)            (* the server wrote a GOAWAY with last-stream-id 2^31-1 on c *)
+| EGoawayFinal (c : cid)       (* the server wrote a GOAWAY with a real last stream id on c *)
+| EIdleAfterFire               (* not a step: the first quiescent point after the signal fired -
+                                  the accept loop must have left the select loop by then *)
 | EQuiet.                      (* not a step: nothing moved for 30 virtual seconds although every
                                   handler had been let through - an assertion that no move of
                                   tonic / hyper is enabled (a refusal, in CSP terms) *)
@@ -229,7 +269,10 @@ Inductive ev :=
 Definition observe1 (l : label) : list ev :=
   match l with
   | Accept c => [EAccept c]
+  | SignalFires => [ESignalFired]
   | SignalObserved => [ESignal]
+  | Goaway c => [EGoaway c]
+  | GoawayFinal c => [EGoawayFinal c]
   | IncomingEnd => [EIncomingEnd]
   | IncomingErr => [EIncomingErr]
   | NewCall c k => [ECallStart c k]
@@ -243,7 +286,7 @@ Definition observe1 (l : label) : list ev :=
 Definition observe (ls : list label) : list ev := flat_map observe1 ls.
 
 Definition hs_if_needed (s : st) (c : cid) : list label :=
-  match lookup c (conns s) with Some (Live HS _ _ _) => [HandshakeDone c] | _ => [] end.
+  match lookup c (conns s) with Some (Live HS _ _ _ _) => [HandshakeDone c] | _ => [] end.
 Definition acceptor_tail (a : acceptor) : list label :=
   match a with
   | Draining AtSend => [Send; DropAcceptorRx]
@@ -260,11 +303,11 @@ Fixpoint closed_holding (l : list (cid * cstate)) : list label :=
 Fixpoint see_all (l : list (cid * cstate)) : list label :=
   match l with
   | [] => []
-  | (c, Live _ _ false _) :: r => ConnSeesChange c :: see_all r
+  | (c, Live _ _ false _ _) :: r => ConnSeesChange c :: see_all r
   | _ :: r => see_all r
   end.
 Definition quiet (v : cstate) : bool :=
-  match v with Closed false => true | Live HS true true _ => true | _ => false end.
+  match v with Closed false => true | Live HS true true _ _ => true | _ => false end.
 (* nothing left to do but wait for peers that never sent their preface *)
 Definition stalled_b (s : st) : bool :=
   match acc s with
@@ -272,10 +315,32 @@ Definition stalled_b (s : st) : bool :=
   | _ => false
   end.
 
+(* how connection c came to be told to shut down, if it has not been yet: by the watch channel
+   when the accept loop has been left (Send first if that has not happened), otherwise only
+   max_connection_age can have done it - which must then be configured *)
+Definition tell (age : bool) (s : st) (c : cid) : option (list label) :=
+  match lookup c (conns s) with
+  | Some (Live _ false _ _ _) =>
+      match acc s with
+      | Selecting => if age then Some [AgeExpires c] else None
+      | Draining AtSend => Some [Send; ConnSeesChange c]
+      | _ => Some [ConnSeesChange c]
+      end
+  | _ => Some []
+  end.
+
 (* the steps (hidden ones first) that explain one observed event in state s *)
-Definition explain (s : st) (e : ev) : option (list label) :=
+Definition explain (age : bool) (s : st) (e : ev) : option (list label) :=
   match e with
   | EAccept c => Some [Accept c]
+  | ESignalFired => Some [SignalFires]
+  | EGoaway c =>
+      match tell age s c with
+      | Some t => Some (hs_if_needed s c ++ t ++ [Goaway c])
+      | None => None
+      end
+  | EGoawayFinal c => Some [GoawayFinal c]
+  | EIdleAfterFire => Some []
   | ESignal => Some [SignalObserved]
   | EIncomingEnd => Some [IncomingEnd]
   | EIncomingErr => Some [IncomingErr]
@@ -291,26 +356,31 @@ Definition explain (s : st) (e : ev) : option (list label) :=
       Some (acceptor_tail (acc s) ++ see_all (conns s) ++ closed_holding (conns s))
   end.
 Definition post_ok (s : st) (e : ev) : bool :=
-  match e with EQuiet => stalled_b s | _ => true end.
-Definition visible (e : ev) : bool := match e with EQuiet => false | _ => true end.
+  match e with
+  | EQuiet => stalled_b s
+  | EIdleAfterFire => match acc s with Selecting => false | _ => true end
+  | _ => true
+  end.
+Definition visible (e : ev) : bool :=
+  match e with EQuiet | EIdleAfterFire => false | _ => true end.
 
-Fixpoint check_trace (s : st) (evs : list ev) : option st :=
+Fixpoint check_trace (age : bool) (s : st) (evs : list ev) : option st :=
   match evs with
   | [] => Some s
   | e :: r =>
-      match explain s e with
+      match explain age s e with
       | None => None
       | Some ls =>
           match exec admits_std resolves_std s ls with
-          | Some s1 => if post_ok s1 e then check_trace s1 r else None
+          | Some s1 => if post_ok s1 e then check_trace age s1 r else None
           | None => None
           end
       end
   end.
 
 Definition is_done (a : acceptor) : bool := match a with Done => true | _ => false end.
-Definition trace_ok (evs : list ev) : bool :=
-  match check_trace init_st evs with Some s => is_done (acc s) | None => false end.
+Definition trace_ok (age : bool) (evs : list ev) : bool :=
+  match check_trace age init_st evs with Some s => is_done (acc s) | None => false end.
 
 (* ---- what every caller must have seen ----------------------------------------------------- *)
 Record call := mkCall {
@@ -328,5 +398,6 @@ Definition expected (evs : list ev) (aborted : list kid) (cl : call) : tr :=
        then Nd [Nn (cl_id cl); Nn 1; Nd (map Bs (cl_msgs cl)); Nn (cl_code cl); Bs (cl_text cl)]
        else Nd [Nn (cl_id cl); Nn 0].
 
-Definition obs_shutdown (evs : list ev) (calls : list call) (aborted : list kid) : tr :=
-  Nd (obool (trace_ok evs) :: map (expected evs aborted) calls).
+(* age = max_connection_age is configured *)
+Definition obs_shutdown (age : bool) (evs : list ev) (calls : list call) (aborted : list kid) : tr :=
+  Nd (obool (trace_ok age evs) :: map (expected evs aborted) calls).
